@@ -175,7 +175,7 @@ fn check_built(rep: &Report, cn: &Cn, domain: [f64; 2], pts: &[[f64; 2]], follow
     let _ = &mut dt;
 }
 
-fn check_periodic(rep: &Report, cn: &Cn, domain: [f64; 2], pts: &[[f64; 2]]) {
+fn check_periodic(rep: &Report, cn: &Cn, domain: [f64; 2], pts: &[[f64; 2]]) -> bool {
     let verts: Vec<_> = pts.iter().enumerate().map(|(i, c)| mk_vertex::<i32, 2>(*c, 1 + i as u128, Some(i as i32))).collect();
     cn.periodic.fetch_add(1, Ordering::Relaxed);
     let replay = || json!({"D": 2, "mode": "periodic", "domain": domain.to_vec(), "points": pts.iter().map(|p| p.to_vec()).collect::<Vec<_>>()});
@@ -183,11 +183,11 @@ fn check_periodic(rep: &Report, cn: &Cn, domain: [f64; 2], pts: &[[f64; 2]]) {
     let dt = match r {
         Err(p) => {
             rep.violation(Finding { signature: json!({"check": "panic", "mode": "periodic"}), description: format!("periodic build panicked: {p}"), replay: replay() });
-            return;
+            return false;
         }
         Ok(Err(_)) => {
             rep.outcome("periodic:Err");
-            return;
+            return false;
         }
         Ok(Ok(d)) => d,
     };
@@ -238,6 +238,25 @@ fn check_periodic(rep: &Report, cn: &Cn, domain: [f64; 2], pts: &[[f64; 2]]) {
         if !seen.insert(v.uuid) {
             bad.push("an input uuid occurs twice".into());
         }
+        // every vertex lies in the half-open box and is congruent to its input (the periodic builder may add a
+        // deterministic sub-resolution perturbation, so congruence is judged to 1e-8 of the period)
+        if let Some(i) = verts.iter().position(|x| x.uuid() == v.uuid) {
+            for ax in 0..2 {
+                let (x, w, l) = (pts[i][ax], v.c[ax], domain[ax]);
+                if !(w >= 0.0 && w < l) {
+                    bad.push(format!("vertex coordinate {w:e} is outside the half-open box [0, {l:e})"));
+                }
+                let r = (x - w) / l;
+                if (r - r.round()).abs() > 1e-8 {
+                    bad.push(format!("vertex coordinate {w:e} is not congruent to its input {x:e} modulo {l:e}"));
+                }
+                if v.data != format!("{:?}", Some(i as i32)) {
+                    bad.push("vertex data changed".into());
+                }
+            }
+        } else {
+            bad.push("result vertex is not an input vertex".into());
+        }
     }
     if s.n_vertices() != pts.len() {
         bad.push(format!("{} vertices for {} inputs", s.n_vertices(), pts.len()));
@@ -245,10 +264,14 @@ fn check_periodic(rep: &Report, cn: &Cn, domain: [f64; 2], pts: &[[f64; 2]]) {
     if let Some(b) = bad.first() {
         rep.violation(Finding { signature: json!({"check": "periodic_result", "class": vcore::report::msg_class(b)}), description: format!("periodic (image-point) build returned Ok but: {bad:?}"), replay: replay() });
     }
+    true
 }
 
 fn main() {
     let args = parse_args();
+    if let Some(p) = &args.replay {
+        std::process::exit(vcore::replay::generic(p));
+    }
     silence_panics();
     let rep = Report::new("C16", &args);
     let thorough = args.tier == Tier::Thorough;
@@ -286,7 +309,21 @@ fn main() {
                 sets.push(s.iter().map(|&i| g[i]).collect());
             }
         }
-        sets.par_iter().for_each(|pts| check_periodic(&rep, &cn, domain, pts));
+        sets.par_iter().for_each(|pts| {
+            if check_periodic(&rep, &cn, domain, pts) {
+                // the same set with one coordinate replaced by a value next to / beyond the faces of the box
+                for i in 0..pts.len() {
+                    for ax in 0..2 {
+                        let l = domain[ax];
+                        for val in [-1e-12 * l, l - 1e-12 * l, 2.0 * l - 1e-12 * l, 1e-12 * l, -1e-20, l, -l, next_down(l), 3.0 * l + 0.25 * l] {
+                            let mut q = pts.clone();
+                            q[i][ax] = val;
+                            check_periodic(&rep, &cn, domain, &q);
+                        }
+                    }
+                }
+            }
+        });
     }
     let (b, bo, io) = (cn.builds.load(Ordering::Relaxed), cn.builds_ok.load(Ordering::Relaxed), cn.inserts_ok.load(Ordering::Relaxed));
     if bo < 200 || io < 200 {
